@@ -430,6 +430,78 @@ class PoolCopy(Contract):
         I.e.prove('C05/pool-copy/a-pool-of-the-same-class', isinstance(ret, SymObj) and ret.cls == 'VariantRecordPool' and st.made is not None)
 
 
+# ----------------------------------------------------------------------------
+# the transcript rank that orders the dispatches (and the records the parsers write)
+# ----------------------------------------------------------------------------
+GAN = 'moPepGen/gtf/GenomicAnnotation.py'
+
+
+class _RankDict:
+    """the dict being filled: logs every assignment"""
+    def __init__(self, st):
+        self.st = st
+
+    def sym_setitem(self, I, key, v):
+        self.st.log.append((key, v))
+
+    def sym_method(self, I, name, a, k):
+        raise Unsupported(f'rank.{name}')
+
+
+@register
+class TranscriptRank(Contract):
+    """GenomicAnnotation.get_transcript_rank(): the rank of the k-th transcript of the annotation (in the order the annotation holds them) is k plus a fixed
+    number - every transcript gets exactly one rank and ranks increase by one per transcript, so sorting by rank is the annotation order and does not depend on anything else"""
+    path, qualname, props = GAN, 'GenomicAnnotation.get_transcript_rank', ('C06',)
+
+    def setup(self, I):
+        e = I.e
+        st = types.SimpleNamespace(log=[])
+        st.n = e.int('n_transcripts')
+        e.assume(st.n >= 0)
+        zz = lambda i: i if is_z3(i) else z3.IntVal(i)
+        st.keys = FnView(st.n, lambda i: SymObj('TxKey06b', i=zz(i)), tag='transcript ids of the annotation')
+        st.anno = SymObj('GenomicAnnotation', transcripts=st.keys)
+        st.args = [st.anno]
+        self._cur = st
+        return st
+
+    def havoc(self, I, env, k):
+        env.set('rank', _RankDict(self._cur))
+        env.set('i', k + self._cur.c0)
+
+    def inv(self, I, env, k):
+        st = self._cur
+        r = env.lookup('rank') if env.has('rank') else None
+        i = env.lookup('i') if env.has('i') else None
+        if isinstance(k, int) and k == 0:
+            st.c0 = i if isinstance(i, int) else 0
+            return [('rank-starts-empty-and-the-counter-at-a-fixed-number', z3.BoolVal(bool(r == {} and isinstance(i, int))))]
+        return [('the-table-being-filled-is-returned-later', z3.BoolVal(isinstance(r, _RankDict))),
+                ('counter-advances-by-one-per-transcript', i == k + st.c0 if is_z3(i) or isinstance(i, int) else False)]
+
+    def head(self, I, env, k):
+        self._cur.mark = len(self._cur.log)
+
+    def step(self, I, env, k):
+        st = self._cur
+        new = st.log[st.mark:]
+        ok = len(new) == 1 and isinstance(new[0][0], SymObj) and new[0][0].cls == 'TxKey06b'
+        # the rank is the counter (before or after it advances: the code is the same in every iteration), so ranks increase by one per transcript
+        v = new[0][1] if ok else None
+        return [('transcript-k-and-nothing-else-is-ranked-and-its-rank-is-the-position-counter',
+                 z3.And(new[0][0].fields['i'] == k, z3.Or(v == k + st.c0, v == k + st.c0 + 1)) if ok else False)]
+
+    @property
+    def loops(self):
+        return {0: LoopSpec(inv=self.inv, havoc=self.havoc, on_head=self.head, step=self.step, target_after='unknown',
+                            on_break=lambda I, env, k: [('every-transcript-is-ranked', False)],
+                            on_exit=lambda I, env, n: [('all-transcripts-were-ranked', n == self._cur.n)])}
+
+    def post_return(self, I, st, ret):
+        I.e.prove('C06/rank/the-filled-table-is-returned', z3.BoolVal(isinstance(ret, _RankDict)))
+
+
 from pyvc.native import NativeCheck
 
 
